@@ -7,21 +7,33 @@ Specification: specs/Formulations.tla (+ MatC17.tla).
      F in {MDF, IDF, DOPT} x user-space variant x normalize_constraints either Build(F) - the design
      variables, and the value and Jacobian blocks of the objective and of every constraint at lattice points -
      or Reject(F).  The property clauses (SpacesExact, SameValues, ConsistencyVanishes, ConsistentDerivatives,
-     DOptAgrees, OptimumKnown) are invariants checked by TLC on every state.
+     StartsAtEquilibrium, ScalesDefined, DOptAgrees, OptimumKnown) are invariants checked by TLC on every state.
+     Build of IDF also takes the OPTIONS that change how the formulation is built and started:
+     start_at_equilibrium (eq), the execution of the disciplines (par: n_processes = 1, 2 threads, 2 processes) and
+     the bounds the user gave to the coupling variables (bnd: both bounds everywhere / none / per component both,
+     lower only, upper only).  The current design values of the design space differ from the default inputs of the
+     disciplines.  The plain combination is enumerated for every instance, the others for one instance in OptMod
+     (multiprocessing: one in OptMod * MpMod), all sequential / threaded ones for the optimum instances.
   2. spec -> code: every printed CASE is built with the real gemseo classes (MDF / IDF / DisciplinaryOpt on
      harness disciplines made of the printed blocks), `formulation.optimization_problem.objective/constraints
      .evaluate/.jac` are called at the printed lattice points, and design-variable names, values and Jacobian
      blocks are compared with what TLC printed (exactly for IDF and DOPT, 1e-9 for MDF whose couplings are
      solved by an MDA with tolerance 1e-14).  Every REJECT of IDF must raise.
      Also compared: the input masks (get_x_names_of_disc / get_x_mask_x_swap_order / mask / unmask), the start
-     point of IDF(start_at_equilibrium=True), and the design-variable sets of BiLevel and of its sub-scenarios.
+     point of IDF(start_at_equilibrium=True) (StartsAtEquilibrium: the current value of the design space after the
+     construction is the start point of the specification and the consistency constraints vanish there), and the
+     design-variable sets of BiLevel and of its sub-scenarios.  A component of a normalised consistency constraint
+     whose coupling has no finite width has an UNSPECIFIED scale in the specification (free): what the implementation
+     returns must be the record divided by one finite positive constant (the same for the value and the Jacobian
+     row at every point of the case).
      ResultsAreValues: within a case ALL points are evaluated first (values and Jacobians of every function, then the
      first point again), every returned array is kept as returned, and only afterwards is each kept array compared
      with the record of its own point (an array that was right when returned and is wrong later = aliasing of an
      internal buffer); on even seeds the disciplines that produce no coupling are quadratic so that the Jacobians
      depend on the point.  Two deliberately false claims must be refuted by TLC (the clauses are not vacuous).
-  3. "reaches the same optimum": on the quadratic instances MDOScenario + SLSQP with MDF and IDF must end at the
-     optimum known to the specification (1e-6).
+  3. "reaches the same optimum": every MDF / IDF case printed for a quadratic instance (user-space variants, and
+     for IDF every option combination) is optimised with MDOScenario + SLSQP and must end at the optimum known to
+     the specification (1e-6).
 Python only transports values: which MDA class / Jacobian storage / linearity declaration is used for a case
 is drawn from the sets the specification prints (seeded); every expected number comes from TLC.
 """
@@ -35,20 +47,30 @@ from ..core import Check, MachineryError, main
 from . import c17_disc
 
 INVS = ["WellFormed", "DyadicBounds", "SpacesExact", "RejectExact", "MasksCover", "SameValues", "ConsistencyVanishes",
-        "ConsistentDerivatives", "EquilibriumConsistent", "DOptAgrees", "ResultsAreValues", "OptimumKnown"]
+        "ConsistentDerivatives", "StartsAtEquilibrium", "ScalesDefined", "DOptAgrees", "ResultsAreValues", "OptimumKnown"]
+PLAIN = dict(eqs=(False,), pars=("seq",), bnds=("fin",), opt_mod=1, mp_mod=1)   # the IDF options left at their plain values
 ALL_TOPOS = ["pair", "pairf", "weak", "two", "cycle3", "tail", "self", "chain", "solo", "solou", "solo0", "chain0"]
 MDA_TOL = 1e-14
 TOL_MDF = 1e-9
+# density of the IDF option combinations (OptMod, MpMod of the specification) per tier
+Q_OPT_MOD, Q_MP_MOD = 8, 16
+TH_OPT_MOD, TH_MP_MOD = 8, 32
 
 
 def tla_set(xs):
     return "{" + ", ".join(f'"{x}"' if isinstance(x, str) else str(x) for x in xs) + "}"
 
 
-def cfg(topos, profiles, choices, seeds, quads, emit=True, emit_mod=1, emit_res=(0,), false_claim=None):
+def cfg(topos, profiles, choices, seeds, quads, emit=True, emit_mod=1, emit_res=(0,), false_claim=None,
+        eqs=(False, True), pars=("seq", "thr", "mp"), bnds=("fin", "open", "half"), opt_mod=1, mp_mod=1):
+    if False not in eqs or "seq" not in pars or "fin" not in bnds:
+        raise MachineryError("the plain option values (eq=FALSE, seq, fin) must be enumerated: MDF/DOPT/BILEVEL are built with them")
     s = (f"CONSTANTS Topos = {tla_set(topos)}\n Profiles = {tla_set(profiles)}\n Choices = {tla_set(choices)}\n"
          f" Seeds = {tla_set(seeds)}\n Quads = {tla_set(quads)}\n EmitMod = {emit_mod}\n EmitRes = {tla_set(emit_res)}\n"
-         f" Emit = {'TRUE' if emit else 'FALSE'}\nSPECIFICATION Spec\nCHECK_DEADLOCK FALSE\n")
+         f" Emit = {'TRUE' if emit else 'FALSE'}\n"
+         f" Eqs = {{{', '.join('TRUE' if e else 'FALSE' for e in eqs)}}}\n Pars = {tla_set(pars)}\n Bnds = {tla_set(bnds)}\n"
+         f" OptMod = {opt_mod}\n MpMod = {mp_mod}\n"
+         f"SPECIFICATION Spec\nCHECK_DEADLOCK FALSE\n")
     for i in INVS:
         s += f"INVARIANT {i}\n"
     if false_claim:
@@ -128,11 +150,36 @@ def printed_values(out: str):
     return vals
 
 
+PARTS = (("two", "chain", "solo"), ("pairf", "pair", "solo0", "chain0"), ("weak", "cycle3", "solou"), ("tail", "self"))
+
+
 def run_spec(ck: Check, tag, **kw):
-    r = ck.tlc("Formulations", cfg(**kw), workers=1, timeout=900, coverage=True,
-               require_actions=("Build", "Reject"))
+    """The instances are enumerated by topology: one TLC run (one worker each: the records are printed) per group of
+    topologies, up to 4 at a time; the hand-written instances go with the last group."""
+    from concurrent.futures import ThreadPoolExecutor
+
+    topos, quads = list(kw["topos"]), list(kw["quads"])
+    groups = [[t for t in part if t in topos] for part in PARTS]
+    groups[0] += [t for t in topos if not any(t in part for part in PARTS)]
+    jobs = [(g, quads if k == len(groups) - 1 else []) for k, g in enumerate(groups)]
+    jobs = [(g, q) for g, q in jobs if g or q]
+    if len(jobs) > 1 and not jobs[-1][0]:
+        jobs[-2] = (jobs[-2][0], jobs[-1][1])
+        jobs.pop()
+
+    def one(job):
+        k, (g, q) = job
+        # (TLC's coverage statistics double the CPU time of these runs: every successor state prints its record - CASE
+        #  after Build, REJECT after Reject - and the records are counted instead, see below)
+        return ck.tlc("Formulations", cfg(**dict(kw, topos=g, quads=q)), workers=1, timeout=900, coverage=False,
+                      tag=f"{tag}-{k}")
+
+    with ThreadPoolExecutor(max_workers=4) as ex:
+        runs = list(ex.map(one, enumerate(jobs)))
     insts, cases, rejects = {}, [], []
-    for v in printed_values(r.out):
+    distinct = sum(r.distinct for r in runs)
+    r = runs[0]
+    for v in [x for rr in runs for x in printed_values(rr.out)]:
         if not isinstance(v, tuple) or not v:
             continue
         if v[0] == "INST":
@@ -143,12 +190,17 @@ def run_spec(ck: Check, tag, **kw):
             rejects.append({"key": tuple(v[1]), "F": v[2], "gsv": v[3], "G": list(_seq(v[4]))})
     if not insts or not cases:
         raise MachineryError(f"Formulations printed no instance/case ({tag})")
+    if kw.get("emit", True) and not rejects:
+        raise MachineryError("vacuity: action Reject of Formulations never taken")
+    ck.extra.setdefault("actions_taken", {})
+    for a, n in (("Init", len(insts)), ("Build", len(cases)), ("Reject", len(rejects))):
+        ck.extra["actions_taken"][a] = ck.extra["actions_taken"].get(a, 0) + n
     for c in cases:
         if c["key"] not in insts:
             raise MachineryError(f"CASE without INST: {c['key']}")
     # nothing may be lost between TLC and the replay: one INST per initial state, one CASE / REJECT per successor
-    if kw.get("emit_mod", 1) == 1 and 1 + len(insts) + len(cases) + len(rejects) != r.distinct + 1:
-        raise MachineryError(f"{r.distinct} states but {len(insts)} INST + {len(cases)} CASE + {len(rejects)} REJECT records")
+    if kw.get("emit_mod", 1) == 1 and len(insts) + len(cases) + len(rejects) != distinct:
+        raise MachineryError(f"{distinct} states but {len(insts)} INST + {len(cases)} CASE + {len(rejects)} REJECT records")
     return r, insts, cases, rejects
 
 
@@ -164,19 +216,35 @@ def mda_settings(solver, main):
     return base(main)
 
 
-def build_formulation(inst, F, G, norm, conf):
+def form_options(form):
+    """The options of a printed form (MDF / DOPT / BILEVEL forms carry the plain values)."""
+    return {"eq": bool(form["eq"]), "par": form["par"], "bnd": form["bnd"]}
+
+
+def idf_settings(norm, opts, solver):
+    """IDF's settings for the options of the specification: normalize_constraints, start_at_equilibrium (with an MDA
+    of the class `solver`, one the specification admits for the system), n_processes / use_threading."""
+    kw = {"normalize_constraints": norm}
+    if opts["eq"]:
+        kw.update(start_at_equilibrium=True, mda_chain_settings_for_start_at_equilibrium=mda_settings(solver, "MDAChain"))
+    if opts["par"] != "seq":
+        # the functions are then built on one MDOParallelChain of all the disciplines
+        kw.update(n_processes=2, use_threading=opts["par"] == "thr")
+    return kw
+
+
+def build_formulation(inst, F, G, norm, conf, bounds=None):
     from gemseo.formulations.disciplinary_opt import DisciplinaryOpt
     from gemseo.formulations.idf import IDF
     from gemseo.formulations.mdf import MDF
 
     discs = c17_disc.build_disciplines(inst, jac_kind=conf["jac_kind"], declare_linear=conf["declare_linear"])
-    space = c17_disc.build_space(inst, G)
+    space = c17_disc.build_space(inst, G, bounds)
     if F == "MDF":
         fm = MDF(discs, inst["obj"], space, main_mda_name=conf["main_mda"],
                  main_mda_settings=mda_settings(conf["solver"], conf["main_mda"]))
     elif F == "IDF":
-        kw = {"n_processes": 2, "use_threading": True} if conf.get("idf_parallel") else {}
-        fm = IDF(discs, inst["obj"], space, normalize_constraints=norm, **kw)
+        fm = IDF(discs, inst["obj"], space, **idf_settings(norm, conf["opts"], conf["solver"]))
     else:
         fm = DisciplinaryOpt(discs, inst["obj"], space)
     for c in inst["cons"]:
@@ -184,15 +252,21 @@ def build_formulation(inst, F, G, norm, conf):
     return fm
 
 
-def draw_conf(rng, inst, F):
+def draw_conf(rng, inst, form):
+    F = form["F"]
     conf = {"jac_kind": rng.choice(["dense", "dense", "sparse"]), "declare_linear": inst["declin"],
-            "main_mda": "-", "solver": "-"}
+            "main_mda": "-", "solver": "-", "opts": form_options(form)}
     if F == "MDF":
         conf["main_mda"], conf["solver"] = rng.choice(inst["mdas"])
-    if F == "IDF":
-        # the functions are then built on one MDOParallelChain of all the disciplines (IDF's n_processes > 1)
-        conf["idf_parallel"] = rng.random() < 0.1
+    if F == "IDF" and conf["opts"]["eq"]:
+        conf["solver"] = rng.choice(inst["solvers"])   # the inner MDA of the start-up MDAChain
     return conf
+
+
+def parse_bounds(res):
+    """res.bounds: for every variable of the user space, which components have a lower / an upper bound."""
+    return {v: {"haslb": [bool(b) for b in _seq(r["haslb"])], "hasub": [bool(b) for b in _seq(r["hasub"])]}
+            for v, r in dict(res["bounds"]).items()} if res["bounds"] else None
 
 
 def guard(ck: Check, clause, sig, detail, fn, *a):
@@ -217,10 +291,43 @@ def classes(inst, F, G, space):
 
 
 def _expected_fn(fr, order, sizes):
+    """Value and Jacobian of a function record; free[r]: the scale of component r is unspecified (any finite
+    positive constant, the same for the value and the Jacobian at every point)."""
     val = _vec(fr["val"])
     den = _vec(fr["den"])
     jac = np.hstack([_mat(fr["jac"][v], sizes[v]) for v in order]) if order else np.zeros((len(val), 0))
-    return val / den, jac / den[:, None]
+    free = np.array([bool(b) for b in _seq(fr["free"])], dtype=bool)
+    return val / den, jac / den[:, None], free
+
+
+def free_scales(kept):
+    """For every component whose scale the specification leaves free: the constant s > 0 such that
+    s * (what the implementation returned) is the record of the specification, taken from the first non-zero entry
+    of the records (None when the implementation returned there 0 or a non-finite number: no such constant)."""
+    scales = {}
+    for _step, _k, label, what, _obj, snap, exp, free in kept:
+        if not free.any() or snap.shape != exp.shape:
+            continue
+        for r in np.flatnonzero(free):
+            if (label, r) in scales:
+                continue
+            e, g = np.atleast_1d(exp[r]).ravel(), np.atleast_1d(snap[r]).ravel()
+            nz = np.flatnonzero(e)
+            if nz.size:
+                q = e[nz[0]] / g[nz[0]] if g[nz[0]] != 0 else np.inf
+                scales[(label, r)] = float(q) if np.isfinite(q) and q > 0 else None
+    return scales
+
+
+def _rescaled(label, arr, free, scales):
+    """The returned array with the free components brought to the scale of the record (nan: no admissible scale)."""
+    if not free.any() or arr.shape[0] != free.shape[0]:
+        return arr
+    out = np.array(arr, dtype=float)
+    for r in np.flatnonzero(free):
+        sc = scales.get((label, r), 1.0)
+        out[r] = out[r] * sc if sc is not None else np.nan
+    return out
 
 
 def replay_bilevel(ck: Check, rng, inst, case):
@@ -273,19 +380,26 @@ def replay_case(ck: Check, rng, inst, case, mda=None):
     res = case["res"]
     exp_space = list(_seq(res["space"]))
     maydrop = set(res["maydrop"])
-    conf = draw_conf(rng, inst, F)
+    conf = draw_conf(rng, inst, case["form"])
     if mda is not None:
         conf["main_mda"], conf["solver"] = mda
+    opts = conf["opts"]
+    bounds = parse_bounds(res)
     sig = classes(inst, F, G, exp_space)
     sig["declared_linear"] = conf["declare_linear"]
     sig.update(variant=gsv, normalize=norm, main_mda=conf["main_mda"], couplings=bool(inst["C"]),
-               idf_parallel=bool(conf.get("idf_parallel")))
-    desc = {"instance": inst, "formulation": F, "user_space": G, "normalize_constraints": norm, "conf": conf}
-    ok, fm = guard(ck, "Build", sig, desc, build_formulation, inst, F, G, norm, conf)
+               start_at_equilibrium=opts["eq"], execution=opts["par"], coupling_bounds=opts["bnd"])
+    desc = {"instance": inst, "formulation": F, "user_space": G, "normalize_constraints": norm, "conf": conf,
+            "bounds_given": bounds}
+    ok, fm = guard(ck, "Build", sig, desc, build_formulation, inst, F, G, norm, conf, bounds)
     if not ok:
         return False
     pb = fm.optimization_problem
     names = list(pb.design_space.variable_names)
+    if F == "IDF":
+        key = f"idf_cases[eq={int(opts['eq'])},{opts['par']},{opts['bnd']},norm={int(norm)}]"
+        ck.extra.setdefault("idf_option_combinations", {})
+        ck.extra["idf_option_combinations"][key] = ck.extra["idf_option_combinations"].get(key, 0) + 1
     # ---- SpacesExact
     allowed = [exp_space] + ([[v for v in exp_space if v not in maydrop]] if maydrop else [])
     if names not in allowed:
@@ -298,6 +412,8 @@ def replay_case(ck: Check, rng, inst, case, mda=None):
     if len(pb.constraints) != n_exp:
         ck.violation("Constraints", sig, dict(desc, spec_n_constraints=n_exp, spec_n_consistency=ncc,
                                               impl=[c.name for c in pb.constraints]))
+        return False
+    if F == "IDF" and not check_start(ck, inst, case, fm, names, sig, desc):
         return False
     discs = list(fm.disciplines)
     if names == exp_space:
@@ -337,22 +453,27 @@ def replay_case(ck: Check, rng, inst, case, mda=None):
         fns += [(f"consistency[{j}]" if j < ncc else f"constraint[{j - ncc}]", pb.constraints[j], fr)
                 for j, fr in enumerate(_seq(pt["cons"]))]
         for label, fn, fr in fns:
-            ev, ej = _expected_fn(fr, names, sizes)
+            ev, ej, free = _expected_fn(fr, names, sizes)
             psig = dict(sig, function=label.split("[")[0])
             pdesc = dict(desc, point=k, step=step, x={v: list(_seq(pt["x"][v])) for v in names}, design_variables=names)
             okv, gv = guard(ck, "Evaluate", dict(psig, what="value"), pdesc, lambda f=fn, x=xs[k]: f.evaluate(x.copy()))
             okj, gj = guard(ck, "Evaluate", dict(psig, what="jac"), pdesc, lambda f=fn, x=xs[k]: f.jac(x.copy()))
             if not (okv and okj):
                 return False
-            kept.append((step, k, label, "value", gv, _as_array(gv, 1).copy(), ev))
-            kept.append((step, k, label, "jacobian", gj, _as_array(gj, 2).copy(), ej))
+            kept.append((step, k, label, "value", gv, _as_array(gv, 1).copy(), ev, free))
+            kept.append((step, k, label, "jacobian", gj, _as_array(gj, 2).copy(), ej, free))
+            if free.any():
+                ck.extra["components_with_a_free_scale_compared"] = \
+                    ck.extra.get("components_with_a_free_scale_compared", 0) + int(free.sum())
             ck.extra["function_values_compared"] = ck.extra.get("function_values_compared", 0) + 1
     bad, stale = [], []
-    for step, k, label, what, obj, snap, exp in kept:
+    scales = free_scales(kept)
+    for step, k, label, what, obj, snap, exp, free in kept:
         now = _as_array(obj, 1 if what == "value" else 2)
-        if snap.shape != exp.shape or not _same(snap, exp, exact):
-            bad.append({"function": label, "what": what, "point": k, "step": step, "impl": snap.tolist(), "spec": exp.tolist()})
-        elif now.shape != exp.shape or not _same(now, exp, exact):
+        if snap.shape != exp.shape or not _same_fn(_rescaled(label, snap, free, scales), exp, free, exact):
+            bad.append({"function": label, "what": what, "point": k, "step": step, "impl": snap.tolist(), "spec": exp.tolist(),
+                        **({"components_with_an_unspecified_positive_scale": np.flatnonzero(free).tolist()} if free.any() else {})})
+        elif now.shape != exp.shape or not _same_fn(_rescaled(label, now, free, scales), exp, free, exact):
             stale.append({"function": label, "what": what, "point": k, "step": step, "returned_then": snap.tolist(),
                           "same_object_after_the_later_evaluations": now.tolist(), "spec": exp.tolist()})
     ck.extra["results_kept_over_later_evaluations"] = ck.extra.get("results_kept_over_later_evaluations", 0) + len(kept)
@@ -362,7 +483,7 @@ def replay_case(ck: Check, rng, inst, case, mda=None):
              "design_variables": names}
     if bad:
         kinds = {b["function"].split("[")[0] + ":" + b["what"] for b in bad}
-        clause = "ConsistencyVanishes" if kinds <= {"consistency:value"} else \
+        clause = "ConsistencyVanishes" if (kinds <= {"consistency:value", "consistency:jacobian"} and "consistency:value" in kinds) else \
                  "ConsistentDerivatives" if all(b["what"] == "jacobian" for b in bad) else "SameValues"
         ck.violation(clause, dict(sig, wrong=sorted(kinds)), dict(desc, **xdesc, wrong=bad[:6], n_wrong=len(bad)))
         return False
@@ -381,43 +502,42 @@ def _as_array(obj, ndim):
     return np.atleast_1d(a) if ndim == 1 else np.atleast_2d(a)
 
 
-def replay_equilibrium(ck: Check, rng, inst, case):
-    """IDF(start_at_equilibrium=True): the current value of the design space after construction."""
-    from gemseo.formulations.idf import IDF
-
+def check_start(ck: Check, inst, case, fm, names, sig, desc):
+    """StartsAtEquilibrium: the current value of the design space after the construction of IDF.  With
+    start_at_equilibrium it is the start point of the specification (design values untouched, coupling targets at the
+    multidisciplinary solution for them; 1e-9: the couplings are solved by an MDA) and the consistency constraints
+    vanish there.  (Without the option the property says nothing of the current value: nothing is compared.)"""
     res = case["res"]
-    eq = res["eq"]
-    G = case["G"]
-    norm = bool(case["form"]["norm"])
-    solver = rng.choice(inst["solvers"])
-    sig = {"formulation": "IDF", "topology": inst["key"][0], "variant": case["form"]["gsv"], "normalize": norm,
-           "start_at_equilibrium": True, "couplings": bool(inst["C"]), "declared_linear": False}
-    desc = {"instance": inst, "user_space": G, "inner_mda": solver}
-
-    def go():
-        discs = c17_disc.build_disciplines(inst)
-        space = c17_disc.build_space(inst, G)
-        fm = IDF(discs, inst["obj"], space, normalize_constraints=norm, start_at_equilibrium=True,
-                 mda_chain_settings_for_start_at_equilibrium=mda_settings(solver, "MDAChain"))
-        return fm
-
-    ok, fm = guard(ck, "Equilibrium", sig, desc, go)
-    if not ok:
-        return False
+    if not case["form"]["eq"]:
+        return True
     ds = fm.optimization_problem.design_space
     cur = ds.get_current_value(as_dict=True)
-    bad = {v: {"impl": np.asarray(cur[v]).tolist(), "spec": list(_seq(eq["cur"][v]))} for v in ds.variable_names
-           if not np.allclose(np.asarray(cur[v], dtype=float), _vec(eq["cur"][v]), rtol=0, atol=TOL_MDF)}
+    start = res["start"]
+    cpl = set(inst["C"])
+    bad = {}
+    for v in names:
+        got, want = np.asarray(cur[v], dtype=float), _vec(start[v])
+        if got.shape != want.shape or not (np.allclose(got, want, rtol=0, atol=TOL_MDF) if v in cpl else np.array_equal(got, want)):
+            bad[v] = {"impl": got.tolist(), "spec": want.tolist()}
     if not bad:
-        # the consistency constraints vanish at the start point
         x0 = ds.get_current_value()
         ncc = _seq(res["pts"])[0]["ncc"]
         for j in range(ncc):
             v = np.atleast_1d(np.asarray(fm.optimization_problem.constraints[j].evaluate(x0), dtype=float))
             if not np.allclose(v, 0.0, rtol=0, atol=TOL_MDF):
                 bad[f"consistency[{j}]"] = {"impl": v.tolist(), "spec": "0"}
+    ck.extra["equilibrium_starts_replayed"] = ck.extra.get("equilibrium_starts_replayed", 0) + 1
+    dfl = res["eq"]["dfl"]
+    if any(list(_seq(dfl[v])) != list(_seq(start[v])) for v in cpl):
+        # (the multidisciplinary solution at the default inputs of the disciplines is another point)
+        ck.extra["equilibrium_starts_that_differ_from_the_equilibrium_of_the_defaults"] = \
+            ck.extra.get("equilibrium_starts_that_differ_from_the_equilibrium_of_the_defaults", 0) + 1
+        if case["form"]["par"] != "seq":
+            ck.extra["...of_which_with_n_processes_2"] = ck.extra.get("...of_which_with_n_processes_2", 0) + 1
     if bad:
-        ck.violation("Equilibrium", sig, dict(desc, wrong=bad))
+        ck.violation("StartsAtEquilibrium", sig,
+                     dict(desc, wrong=bad, spec_start={v: list(_seq(start[v])) for v in names},
+                          equilibrium_of_the_default_inputs={v: list(_seq(dfl[v])) for v in sorted(cpl)}))
         return False
     return True
 
@@ -432,10 +552,18 @@ def _same(a, b, exact):
     return bool(np.allclose(a, b, rtol=TOL_MDF, atol=TOL_MDF))
 
 
+def _same_fn(a, b, free, exact):
+    """Components with a free scale were rescaled by a quotient of floats: compared to 1e-12 (relative)."""
+    if not free.any():
+        return _same(a, b, exact)
+    return _same(a[~free], b[~free], exact) and bool(np.allclose(a[free], b[free], rtol=1e-12, atol=0.0))
+
+
 def replay_reject(ck: Check, inst, rj):
     """IDF on a space that lacks a coupling must raise (documented ValueError)."""
     sig = {"formulation": "IDF", "variant": rj["gsv"], "topology": inst["key"][0]}
-    conf = {"jac_kind": "dense", "declare_linear": False, "main_mda": "-", "solver": "-"}
+    conf = {"jac_kind": "dense", "declare_linear": False, "main_mda": "-", "solver": "-",
+            "opts": {"eq": False, "par": "seq", "bnd": "fin"}}
     try:
         fm = build_formulation(inst, "IDF", rj["G"], False, conf)
     except ValueError:
@@ -452,17 +580,23 @@ def replay_reject(ck: Check, inst, rj):
 
 # ------------------------------------------------------------------ "reaches the same optimum"
 
-def replay_optimum(ck: Check, inst, F, G, norm, solver):
+def replay_optimum(ck: Check, rng, inst, case, solver):
+    """MDOScenario + SLSQP on the formulation of a printed case (its user space, its options) of an instance whose
+    optimum the specification knows."""
     from gemseo.scenarios.mdo_scenario import MDOScenario
 
-    sig = {"formulation": F, "topology": "quad", "instance": inst["key"][3], "normalize": norm, "clause": "SameOptimum"}
-    desc = {"instance": inst, "formulation": F, "user_space": G, "solver": solver}
+    form, G = case["form"], case["G"]
+    F, norm, opts = form["F"], bool(form["norm"]), form_options(form)
+    bounds = parse_bounds(case["res"])
+    sig = {"formulation": F, "topology": "quad", "instance": inst["key"][3], "normalize": norm, "clause": "SameOptimum",
+           "variant": form["gsv"], "start_at_equilibrium": opts["eq"], "execution": opts["par"], "coupling_bounds": opts["bnd"]}
+    desc = {"instance": inst, "formulation": F, "user_space": G, "solver": solver, "options": opts, "bounds_given": bounds}
 
     def go():
         discs = c17_disc.build_disciplines(inst)
-        space = c17_disc.build_space(inst, G)
+        space = c17_disc.build_space(inst, G, bounds)
         kw = {"main_mda_name": "MDAChain", "main_mda_settings": mda_settings(solver, "MDAChain")} if F == "MDF" \
-            else {"normalize_constraints": norm}
+            else idf_settings(norm, opts, solver)
         sc = MDOScenario(discs, inst["obj"], space, formulation_name=F, **kw)
         for c in inst["cons"]:
             sc.add_constraint(c if len(c) > 1 else c[0], constraint_type="ineq")
@@ -499,10 +633,10 @@ def run(ck: Check):
     if th:
         plan = dict(topos=ALL_TOPOS, profiles=[0, 5, 42, 341, 682, 1023], seeds=[1, 2, 3, 4],
                     choices=[0, 1, 2, 3, 7, 8, 9, 13, 14, 16, 19, 20, 21, 26, 27, 33, 40, 100, 200, 300, 437, 651, 777, 1000, 1295],
-                    quads=[1, 2])
+                    quads=[1, 2], opt_mod=TH_OPT_MOD, mp_mod=TH_MP_MOD)
     else:
         plan = dict(topos=ALL_TOPOS, profiles=[0, 341], seeds=[1, 2],
-                    choices=[0, 1, 9, 14, 19, 26, 100, 300], quads=[1, 2])
+                    choices=[0, 1, 9, 14, 19, 26, 100, 300], quads=[1, 2], opt_mod=Q_OPT_MOD, mp_mod=Q_MP_MOD)
     r, insts, cases, rejects = run_spec(ck, "main", **plan)
     ck.extra["instances"] = len(insts)
     ck.extra["instances_by_topology"] = {t: sum(1 for k in insts if k[0] == t) for t in sorted({k[0] for k in insts})}
@@ -528,11 +662,6 @@ def run(ck: Check):
                        "point": {v: list(_seq(x)) for v, x in p0["x"].items()},
                        "objective": list(_seq(p0["obj"]["val"])),
                        "constraints": [[list(_seq(f["val"])), list(_seq(f["den"]))] for f in _seq(p0["cons"])]})
-        if c["form"]["F"] == "IDF" and inst["C"] and c["form"]["gsv"] == "full" and bool(c["res"]["eq"]["inb"]) \
-                and (th or (c["key"][2] + c["key"][3]) % 2 == 0):
-            replay_equilibrium(ck, rng, inst, c)
-            ck.traces += 1
-            ck.extra["equilibrium_starts_replayed"] = ck.extra.get("equilibrium_starts_replayed", 0) + 1
     ck.extra["cases_replayed"] = len(cases)
     # (vacuity is a property of what the specification printed, not of how far the replay of a case went)
     ck.extra["cases_with_point_dependent_jacobians"] = sum(
@@ -552,32 +681,50 @@ def run(ck: Check):
     ck.extra["idf_rejects_replayed"] = n_rej
     if n_rej == 0:
         raise MachineryError("no IDF Reject was replayed")
-    if not ck.extra.get("equilibrium_starts_replayed"):
-        raise MachineryError("no IDF(start_at_equilibrium) case was replayed")
-    # ---- the clauses are not vacuous: TLC must refute two deliberately false claims on a small configuration
-    refuted = {}
-    for claim in ("FalseClaimSameValuesOffSolution", "FalseClaimPartialIsTotal"):
+    # ---- vacuity of the option dimensions: what the specification enumerated and the replay built
+    combos = ck.extra.get("idf_option_combinations", {})
+
+    def n_combos(pred):
+        return sum(n for k, n in combos.items() if pred(k))
+
+    need = {"equilibrium_starts_replayed": ck.extra.get("equilibrium_starts_replayed", 0),
+            "equilibrium starts with n_processes = 2 at design values that are not the defaults of the disciplines":
+                ck.extra.get("...of_which_with_n_processes_2", 0),
+            "normalised cases with a coupling without finite width": n_combos(lambda k: "norm=1" in k and ",fin," not in k),
+            "threaded cases": n_combos(lambda k: ",thr," in k),
+            "multiprocessing cases": n_combos(lambda k: ",mp," in k),
+            "components_with_a_free_scale_compared": ck.extra.get("components_with_a_free_scale_compared", 0)}
+    for what, n in need.items():
+        if not n:
+            raise MachineryError(f"vacuity: no case for: {what}")
+    # ---- the clauses are not vacuous: TLC must refute three deliberately false claims on a small configuration
+    from concurrent.futures import ThreadPoolExecutor
+
+    def refute(claim):
         r2 = ck.tlc("Formulations", cfg(topos=["pair", "two"], profiles=[0, 42], choices=[1, 9, 19, 26], seeds=[1], quads=[],
-                                        emit=False, false_claim=claim),
-                    workers=2, timeout=300, coverage=False, expect_ok=False, count=False)
-        refuted[claim] = r2.violated
+                                        emit=False, false_claim=claim, **PLAIN),
+                    workers=1, timeout=300, coverage=False, expect_ok=False, count=False, tag=claim)
         if r2.violated != claim:
             raise MachineryError(f"TLC did not refute {claim} (violated: {r2.violated})")
-    ck.extra["false_claims_refuted_by_tlc"] = refuted
+        return r2.violated
+
+    claims = ("FalseClaimSameValuesOffSolution", "FalseClaimPartialIsTotal", "FalseClaimEquilibriumOfTheDefaults")
+    with ThreadPoolExecutor(max_workers=3) as ex:
+        ck.extra["false_claims_refuted_by_tlc"] = dict(zip(claims, ex.map(refute, claims)))
     # ---- same optimum
-    n_opt = 0
-    for key, inst in sorted(insts.items()):
-        if not inst["hasopt"]:
+    # every MDF / IDF case the specification printed for an instance whose optimum it knows is optimised
+    n_opt = {}
+    for c in cases:
+        inst = insts[c["key"]]
+        if not inst["hasopt"] or c["form"]["F"] not in ("MDF", "IDF"):
             continue
-        for F, G, norm in (("MDF", inst["space"], False), ("MDF", [v for v in inst["space"] if v not in inst["C"]], False),
-                           ("IDF", inst["space"], False), ("IDF", inst["space"], True)):
-            for solver in (inst["solvers"] if (F == "MDF" and th) else inst["solvers"][-1:]):
-                replay_optimum(ck, inst, F, G, norm, solver)
-                n_opt += 1
-                ck.traces += 1
+        for solver in (inst["solvers"] if (c["form"]["F"] == "MDF" and th) else inst["solvers"][-1:]):
+            replay_optimum(ck, rng, inst, c, solver)
+            n_opt[c["form"]["F"]] = n_opt.get(c["form"]["F"], 0) + 1
+            ck.traces += 1
     ck.extra["optimisations_run"] = n_opt
-    if n_opt == 0:
-        raise MachineryError("no quadratic instance was optimised")
+    if not n_opt.get("MDF") or not n_opt.get("IDF"):
+        raise MachineryError("no quadratic instance was optimised with MDF and with IDF")
     ck.exhaustive = True  # every printed case/reject of the bounded model is replayed (EmitMod = 1)
     ck.assumptions += [
         "exact-arithmetic slice: affine disciplines with integer blocks (entries -2..2), sizes 1..2, I - B unimodular, "
@@ -589,6 +736,13 @@ def run(ck: Check):
         "DisciplinaryOpt is only defined by the specification when the listing of the disciplines is an execution order",
         "constraints are identified by their position in optimization_problem.constraints (consistency constraints "
         "in discipline order, then user constraints in the order of add_constraint)",
+        "normalize_constraints with a coupling component that has no finite width: the specification leaves the scale of "
+        "that component free (any finite positive constant, the same for value and Jacobian at every point of a case)",
+        "start_at_equilibrium is only enumerated when the multidisciplinary solution lies within the bounds the couplings "
+        "have; without the option nothing is demanded of the current value of the design space",
+        f"IDF option combinations other than the plain one: one instance in {TH_OPT_MOD if th else Q_OPT_MOD} each "
+        f"(multiprocessing: one in {(TH_OPT_MOD * TH_MP_MOD) if th else (Q_OPT_MOD * Q_MP_MOD)}), selected by OptSel of the "
+        "specification; n_processes = 2 only (threads or processes)",
     ]
 
 
